@@ -139,11 +139,27 @@ def run(chk, prog):
         return gets, consts
     g1, c1 = head_consts(r"^common::frames::Frame::read_head$")
     g2, c2 = head_consts(r"^common::frames::Frame::from_buffer$")
-    ok = g1 == g2 and 12 in c1 and 12 in c2
-    chk.instance("S3", "src/common/frames.rs", "read_head and from_buffer read the same header fields %s with header size 12" % g1, ok, "%s %s / %s %s" % (g1, c1, g2, c2))
+    from .bytebudget import linform, bufops
+    W = {"u8": 1, "u16": 2, "u32": 4, "u64": 8}
+    hdr = sum(W[x] for x in g1)
+    rh = prog.one(r"^common::frames::Frame::read_head$")
+    k1 = None
+    for b in rh.reachable:
+        for st in rh.stmts(b):
+            if st["k"] == "assign" and st["rv"]["k"] == "agg" and st["rv"].get("variant") == "Some" and st["rv"]["ops"]:
+                lf = linform(rh, st["rv"]["ops"][0])
+                if lf is not None and len(lf) >= 3:
+                    k1 = lf.get(1, 0)
+    fb = prog.one(r"^common::frames::Frame::from_buffer$")
+    adv = [fb.int_of(c.args[1]) for c in fb.calls if re.search(r"Buf::advance$", c.path or "")]
+    k2 = sorted(set(lb.get(1, 0) for (gs, sb, tb, lb, lc) in bufops(fb).guards if len(lb) >= 3))
+    ok = g1 == g2 and k1 == hdr and adv == [hdr] and k2 == [hdr]
+    chk.instance("S3", "src/common/frames.rs", "read_head and from_buffer agree on the header: fields %s, size %d" % (g1, hdr), ok,
+                 "read_head length const %s, from_buffer guard const %s, advance %s" % (k1, k2, adv))
     if not ok:
         chk.finding("S3", "common::frames::Frame", "head-agreement", "", "src/common/frames.rs",
-                    "Frame::read_head (%s, %s) and Frame::from_buffer (%s, %s) no longer agree on the header layout" % (g1, c1, g2, c2))
+                    "Frame::read_head (fields %s, frame length = %s + attr + body) and Frame::from_buffer (fields %s, guard %s + attr + body, advance %s) "
+                    "no longer agree with the %d-byte header: the stream reader cuts frames at the wrong place" % (g1, k1, g2, k2, adv, hdr))
 
     # ---------------------------------------------------------------- H1
     shared.rule_h1(chk, prog)
